@@ -81,3 +81,22 @@ pub proof fn lemma_fits_wrap(s: bool, w: int, x: int)
     let k = lemma_wrap_diff(s, w, x);
     if fits(s, w, x) { lemma_wrap_id(s, w, x); }
 }
+
+// characterisation of wrap: in range, congruent to x, and the only such value
+pub proof fn lemma_wrap_char(s: bool, w: int, x: int)
+    requires w >= 1
+    ensures fits(s, w, wrap(s, w, x)), (wrap(s, w, x) - x) % p2(w) == 0,
+        forall|y: int| fits(s, w, y) && #[trigger] ((y - x) % p2(w)) == 0 ==> y == wrap(s, w, x)
+{
+    let k = lemma_wrap_diff(s, w, x);
+    lemma_p2_pos(w);
+    assert(wrap(s, w, x) - x == (-k) * p2(w)) by (nonlinear_arith) requires wrap(s, w, x) == x - k * p2(w);
+    lemma_mod_multiples_basic(-k, p2(w));
+    assert forall|y: int| fits(s, w, y) && #[trigger] ((y - x) % p2(w)) == 0 implies y == wrap(s, w, x) by {
+        let d = y - x;
+        lemma_fundamental_div_mod(d, p2(w));
+        let j = d / p2(w);
+        assert(y == x + j * p2(w)) by (nonlinear_arith) requires d == p2(w) * j + 0, d == y - x;
+        lemma_wrap_unique(s, w, x, y, j);
+    }
+}
